@@ -7,6 +7,7 @@ import (
 	"errors"
 	"fmt"
 	"io"
+	"os"
 	"strings"
 
 	"github.com/parquet-go/parquet-go"
@@ -45,8 +46,20 @@ type C18Scenario struct {
 	SampleSeed      uint64     `json:"sample_seed"`
 	MaxBytes        int        `json:"max_bytes"`
 	Wide            bool       `json:"wide,omitempty"` // more than 256 row groups: ordinals beyond one byte
-	Only            *C18Case   `json:"only,omitempty"`
-	Failed          *C18Case   `json:"failed,omitempty"`
+	// Mode: "" two fresh writers with configured file identifiers; "random-id"
+	// two fresh writers, identifiers left to the library; "reuse" one writer
+	// instance writes the transplant donor, is Reset (after Close, or after
+	// Close and an abandoned start) and writes the file under test,
+	// identifiers left to the library; "rowgroup-writers" the rows go through
+	// BeginRowGroup / ColumnWriters / Commit
+	Mode      string `json:"mode,omitempty"`
+	Abandoned bool   `json:"abandoned,omitempty"`
+	// Style: "" WithEncryption among the options; "config-struct" the options
+	// folded into a *WriterConfig passed as the only option; "sorting-writer" a
+	// SortingWriter sorting by id (the order the rows are written in)
+	Style  string   `json:"style,omitempty"`
+	Only   *C18Case `json:"only,omitempty"`
+	Failed *C18Case `json:"failed,omitempty"`
 }
 
 func (s *C18Scenario) Focus(v *core.Violation) {
@@ -83,7 +96,7 @@ func (C18) New() any { return &C18Scenario{} }
 
 func (C18) Gen(t *tape.Tape, tier string) any {
 	sc := &C18Scenario{}
-	shapes := []gen.Shape{gen.ShapeFlat, gen.ShapeNested, gen.ShapeLogical}
+	shapes := []gen.Shape{gen.ShapeFlat, gen.ShapeNested, gen.ShapeLogical, gen.ShapeDyn, gen.ShapeGen}
 	sc.Plan = GenWritePlan(t, shapes, 200)
 	if sc.Plan.NRows == 0 {
 		sc.Plan.NRows = 1 + t.Draw(30)
@@ -110,16 +123,17 @@ func (C18) Gen(t *tape.Tape, tier string) any {
 	}
 	sc.AadPrefix = t.Bool()
 	sc.RandSeed = t.Seed()
-	n := int64(sc.Plan.NRows)
-	for i := t.Draw(6); i > 0; i-- {
-		if t.Bool() {
-			sc.Seeks = append(sc.Seeks, SeekOp{Op: "seek", K: int64(t.Draw(int(n) + 1))})
-		} else {
-			sc.Seeks = append(sc.Seeks, SeekOp{Op: "read", N: []int{1, 7, 64, 300}[t.Draw(4)]})
-		}
-	}
+	sc.Seeks = genSeekOps(t, int64(sc.Plan.NRows), t.Range(0, 14))
 	sc.SampleSeed = t.Seed()
+	sc.Mode = []string{"", "random-id", "reuse", "rowgroup-writers"}[t.Weighted(3, 1, 3, 2)]
+	sc.Abandoned = t.Bool()
+	sc.Style = []string{"", "config-struct", "sorting-writer"}[t.Weighted(4, 1, 1)]
+	if sc.Mode == "rowgroup-writers" {
+		sc.Style = ""
+		sc.Plan.WriterKind = []string{gen.WGeneric, gen.WReflect}[t.Draw(2)]
+	}
 	if t.Chance(1, 8) {
+		sc.Mode = ""
 		// module ordinals are 16-bit: a file with more than 256 row groups makes
 		// modules whose ordinals differ by 256 available for swapping
 		sc.Wide = true
@@ -196,28 +210,26 @@ func (k *keyRing) ColumnKey(path []string, _ []byte) ([]byte, error) {
 }
 
 type c18run struct {
-	sc     *C18Scenario
-	c      *core.Ctx
-	sh     gen.Shape
-	data   gen.Data
-	good   []byte
-	other  []byte // second file: same keys, another file identifier
-	keys   *keyRing
-	evals  int
-	sigs   []uint64
-	base   string
-	footer int64 // offset where the footer section starts
+	sc        *C18Scenario
+	c         *core.Ctx
+	sh        gen.Shape
+	data      gen.Data
+	good      []byte
+	other     []byte // second file: same keys, another file identifier
+	keys      *keyRing
+	evals     int
+	sigs      []uint64
+	base      string
+	sharedCfg *parquet.EncryptionConfig
+	footer    int64 // offset where the footer section starts
 	// offset where the authenticated part of the footer section starts
 	footerModule int64
 	mods         [][2]int64
 	mods2        [][2]int64
 }
 
-func (r *c18run) write(fileID []byte, seedOff uint64) ([]byte, *core.Violation) {
+func (r *c18run) config(fileID []byte) *parquet.EncryptionConfig {
 	sc := r.sc
-	old := crand.Reader
-	crand.Reader = detRand{tape.NewRng(sc.RandSeed + seedOff)}
-	defer func() { crand.Reader = old }()
 	cfg := &parquet.EncryptionConfig{FooterKey: r.keys.footer, EncryptedFooter: sc.EncryptedFooter, FileIdentifier: fileID}
 	if len(r.keys.cols) > 0 {
 		cfg.ColumnKeys = r.keys.cols
@@ -225,16 +237,136 @@ func (r *c18run) write(fileID []byte, seedOff uint64) ([]byte, *core.Violation) 
 	if sc.AadPrefix {
 		cfg.AadPrefix = []byte("pqsim-aad")
 	}
+	return cfg
+}
+
+// newWriter builds the writer the way the scenario's style says.
+func (r *c18run) newWriter(face io.Writer, cfg *parquet.EncryptionConfig, e *gen.Env) (gen.Writer, *core.Violation) {
+	sc := r.sc
+	opts := append(sc.Plan.W.Options(e), parquet.WithEncryption(cfg))
+	switch sc.Style {
+	case "config-struct":
+		wc, err := parquet.NewWriterConfig(opts...)
+		if err != nil {
+			return nil, core.Violate("C18/harness/writer-config", "%v", err)
+		}
+		opts = []parquet.WriterOption{wc}
+	case "sorting-writer":
+		opts = append(opts, parquet.SortingWriterConfig(parquet.SortingColumns(parquet.Ascending("id"))))
+		return r.sh.NewSortingWriter(face, int64(1+sc.Plan.NRows/3), opts...), nil
+	}
+	return r.sh.NewWriter(sc.Plan.WriterKind, face, opts...), nil
+}
+
+// write produces one file from a fresh writer.
+func (r *c18run) write(fileID []byte, seedOff uint64) ([]byte, *core.Violation) {
+	sc := r.sc
+	old := crand.Reader
+	crand.Reader = detRand{tape.NewRng(sc.RandSeed + seedOff)}
+	defer func() { crand.Reader = old }()
 	e := &gen.Env{Ctx: r.c}
 	sink, face := env.NewSink(r.c, sc.Plan.Sink, nil)
-	opts := append(sc.Plan.W.Options(e), parquet.WithEncryption(cfg))
-	w := r.sh.NewWriter(sc.Plan.WriterKind, face, opts...)
+	cfg := r.config(fileID)
+	if fileID == nil {
+		// the application's one configuration value serves all its writers
+		if r.sharedCfg == nil {
+			r.sharedCfg = cfg
+		}
+		cfg = r.sharedCfg
+	}
+	w, v := r.newWriter(face, cfg, e)
+	if v != nil {
+		return nil, v
+	}
 	res := &Written{Shape: r.sh, Data: r.data, Sink: sink, Env: e, W: w}
-	res.RunOps(r.c, sc.Plan.Ops, 0)
+	if sc.Mode == "rowgroup-writers" {
+		r.runRowGroupWriters(res)
+	} else {
+		res.RunOps(r.c, sc.Plan.Ops, 0)
+	}
 	if res.FirstErr != nil {
 		return nil, core.Violate("C18/write-error/"+res.ErrOp, "%v", res.FirstErr)
 	}
 	return append([]byte(nil), sink.Bytes()...), nil
+}
+
+// runRowGroupWriters writes the plan's batches as row groups filled through
+// their column writers.
+func (r *c18run) runRowGroupWriters(res *Written) {
+	bw, ok := res.W.Raw().(interface {
+		BeginRowGroup() *parquet.ConcurrentRowGroupWriter
+	})
+	if !ok {
+		res.FirstErr, res.ErrOp = fmt.Errorf("writer %T has no BeginRowGroup", res.W.Raw()), "begin"
+		return
+	}
+	rows := r.data.Rows()
+	cursor := 0
+	for _, op := range r.sc.Plan.Ops {
+		if op.Op != "write" || op.N == 0 {
+			continue
+		}
+		hi := min(cursor+op.N, len(rows))
+		if hi == cursor {
+			continue
+		}
+		rg := bw.BeginRowGroup()
+		for ci, cw := range rg.ColumnWriters() {
+			if _, err := cw.WriteRowValues(columnValues(rows[cursor:hi], ci)); err != nil {
+				res.FirstErr, res.ErrOp = err, "write-row-values"
+				return
+			}
+		}
+		if _, err := rg.Commit(); err != nil {
+			res.FirstErr, res.ErrOp = err, "commit"
+			return
+		}
+		r.c.Probe("row-groups-through-column-writers")
+		cursor = hi
+	}
+	if err := res.W.Close(); err != nil {
+		res.FirstErr, res.ErrOp = err, "close"
+	}
+}
+
+// writeReused produces the donor file and the file under test from one writer
+// instance, the library choosing the file identifiers.
+func (r *c18run) writeReused() (donor, good []byte, v *core.Violation) {
+	sc := r.sc
+	old := crand.Reader
+	crand.Reader = detRand{tape.NewRng(sc.RandSeed)}
+	defer func() { crand.Reader = old }()
+	e := &gen.Env{Ctx: r.c}
+	sink, face := env.NewSink(r.c, sc.Plan.Sink, nil)
+	w, v := r.newWriter(face, r.config(nil), e)
+	if v != nil {
+		return nil, nil, v
+	}
+	res := &Written{Shape: r.sh, Data: r.data, Sink: sink, Env: e, W: w}
+	res.RunOps(r.c, sc.Plan.Ops, 0)
+	if res.FirstErr != nil {
+		return nil, nil, core.Violate("C18/write-error/"+res.ErrOp, "first life: %v", res.FirstErr)
+	}
+	donor = append([]byte(nil), sink.Bytes()...)
+	if sc.Abandoned {
+		_, xface := env.NewSink(r.c, sc.Plan.Sink, nil)
+		w.Reset(xface)
+		x := &Written{Shape: r.sh, Data: r.data, Env: e, W: w}
+		x.runOpsNoClose(r.c, sc.Plan.Ops[:(len(sc.Plan.Ops)+1)/2])
+		if x.FirstErr != nil {
+			return nil, nil, core.Violate("C18/write-error/"+x.ErrOp, "abandoned life: %v", x.FirstErr)
+		}
+		r.c.Probe("reused-after-abandoned-content")
+	}
+	sink2, face2 := env.NewSink(r.c, sc.Plan.Sink, nil)
+	w.Reset(face2)
+	res2 := &Written{Shape: r.sh, Data: r.data, Sink: sink2, Env: e, W: w}
+	res2.RunOps(r.c, sc.Plan.Ops, 0)
+	if res2.FirstErr != nil {
+		return nil, nil, core.Violate("C18/write-error/"+res2.ErrOp, "after Reset: %v", res2.FirstErr)
+	}
+	r.c.Probe("reused-writer-files")
+	return donor, append([]byte(nil), sink2.Bytes()...), nil
 }
 
 // fullRead opens img with keys and reads everything every module is needed for.
@@ -371,10 +503,22 @@ func walkModules(img []byte, footerStart int64) ([][2]int64, bool) {
 	return mods, off == footerStart
 }
 
-func (C18) Run(s any, c *core.Ctx) core.Outcome {
+func (C18) Run(s any, c *core.Ctx) (out core.Outcome) {
 	sc := s.(*C18Scenario)
 	sc.Failed = nil
-	out := core.Outcome{}
+	if sc.Mode == "rowgroup-writers" {
+		// its own classes: what fails for row groups filled through their column
+		// writers says nothing about files written through Write
+		defer func() {
+			if out.Violation != nil {
+				if strings.HasPrefix(out.Violation.Class, "C18/roundtrip/") {
+					// one class for "the right keys do not read it back", however it shows
+					out.Violation.Class = "C18/roundtrip/not-readable-with-right-keys"
+				}
+				out.Violation.Class += "/rowgroup-writers"
+			}
+		}()
+	}
 	r := &c18run{sc: sc, c: c}
 	r.sh, r.data = sc.Plan.MakeData()
 	sc.Pools.Install()
@@ -387,33 +531,41 @@ func (C18) Run(s any, c *core.Ctx) core.Outcome {
 		r.keys.cols[p] = k
 	}
 	var v *core.Violation
-	if r.good, v = r.write([]byte("fileid01"), 0); v != nil {
-		out.Violation = v
-		return out
+	switch sc.Mode {
+	case "reuse":
+		if r.other, r.good, v = r.writeReused(); v != nil {
+			out.Violation = v
+			return out
+		}
+	case "random-id":
+		// identifiers drawn by the library from (simulated) crypto/rand
+		if r.good, v = r.write(nil, 0); v != nil {
+			out.Violation = v
+			return out
+		}
+		if r.other, v = r.write(nil, 1); v != nil {
+			out.Violation = v
+			return out
+		}
+	default:
+		if r.good, v = r.write([]byte("fileid01"), 0); v != nil {
+			out.Violation = v
+			return out
+		}
+		if r.other, v = r.write([]byte("fileid02"), 0); v != nil {
+			out.Violation = v
+			return out
+		}
 	}
-	if r.other, v = r.write([]byte("fileid02"), 0); v != nil {
-		out.Violation = v
-		return out
+	if d := os.Getenv("PQSIM_DUMP"); d != "" {
+		os.WriteFile(d+"/good.parquet", r.good, 0o644)
+		os.WriteFile(d+"/other.parquet", r.other, 0o644)
+		os.WriteFile(d+"/footer.key", r.keys.footer, 0o644)
 	}
-	r.base = fmt.Sprintf("%s|%d|%d|%s|%v|%v|", sc.Plan.Shape, sc.Plan.RowSeed, sc.Plan.NRows, sc.Plan.W.Sig(), sc.EncryptedFooter, sc.ColumnKeys)
-	out.Sample = map[string]any{"shape": sc.Plan.Shape, "rows": sc.Plan.NRows, "encrypted_footer": sc.EncryptedFooter, "column_keys": sc.ColumnKeys, "file_bytes": len(r.good), "opts": sc.Plan.W.Sig()}
+	r.base = fmt.Sprintf("%s|%s%v%s|%d|%d|%s|%v|%v|", sc.Plan.Shape, sc.Mode, sc.Abandoned, sc.Style, sc.Plan.RowSeed, sc.Plan.NRows, sc.Plan.W.Sig(), sc.EncryptedFooter, sc.ColumnKeys)
+	out.Sample = map[string]any{"shape": sc.Plan.Shape, "mode": sc.Mode, "style": sc.Style, "rows": sc.Plan.NRows, "encrypted_footer": sc.EncryptedFooter, "column_keys": sc.ColumnKeys, "file_bytes": len(r.good), "opts": sc.Plan.W.Sig()}
 
-	// (1) round trip with the right keys
-	r.evals++
-	res := r.fullRead(r.good, r.keys, -1)
-	switch {
-	case res.Wrong != nil:
-		res.Wrong.Class = "C18/roundtrip/" + lastSeg(res.Wrong.Class)
-		out.Violation = res.Wrong
-	case res.Err != nil:
-		out.Violation = core.Violate("C18/roundtrip/error-with-right-keys", "stage %s: %v", res.Stage, res.Err)
-	case !res.Complete:
-		out.Violation = core.Violate("C18/roundtrip/missing-rows", "%d of %d rows", res.Delivered, r.data.Len())
-	}
-	if out.Violation != nil {
-		return out
-	}
-	// (2) no plaintext
+	// (1) no plaintext
 	seen := map[string]bool{}
 	for _, row := range r.data.Rows() {
 		for _, val := range row {
@@ -430,6 +582,21 @@ func (C18) Run(s any, c *core.Ctx) core.Outcome {
 				return out
 			}
 		}
+	}
+	// (2) round trip with the right keys
+	r.evals++
+	res := r.fullRead(r.good, r.keys, -1)
+	switch {
+	case res.Wrong != nil:
+		res.Wrong.Class = "C18/roundtrip/" + lastSeg(res.Wrong.Class)
+		out.Violation = res.Wrong
+	case res.Err != nil:
+		out.Violation = core.Violate("C18/roundtrip/error-with-right-keys", "stage %s: %v", res.Stage, res.Err)
+	case !res.Complete:
+		out.Violation = core.Violate("C18/roundtrip/missing-rows", "%d of %d rows", res.Delivered, r.data.Len())
+	}
+	if out.Violation != nil {
+		return out
 	}
 	c.ProbeN("plaintext-tokens-searched", len(seen))
 	// footer section start
